@@ -60,9 +60,9 @@ __wrap_timerfd_settime(int fd, int flags, const struct itimerspec *n, struct iti
 #define ID_P	3	/* child process (TP_EV_PROC); only the proc_history enumeration uses it */
 #define NID	4
 
-enum { S_ADD = 1, S_ENABLE1, S_ENABLEF, S_DISABLE, S_DEL, S_READY, S_DRAIN, S_PEERCLOSE, S_FIRE, S_SETACT, S_PEXIT };
+enum { S_ADD = 1, S_ENABLE1, S_ENABLEF, S_DISABLE, S_DEL, S_READY, S_DRAIN, S_PEERCLOSE, S_FIRE, S_SETACT, S_PEXIT, S_PEERSHUT };
 enum { ACT_NONE = 0, ACT_DISABLE_SELF, ACT_DEL_SELF, ACT_ENABLE_OTHER, ACT_DRAIN_SELF };
-static const char *stepname[] = { "?", "add", "enable1", "enableF", "disable", "del", "ready", "drain", "peerclose", "fire", "setact", "child-exits" };
+static const char *stepname[] = { "?", "add", "enable1", "enableF", "disable", "del", "ready", "drain", "peerclose", "fire", "setact", "child-exits", "peer-half-close" };
 static const char *actname[] = { "none", "disable-self", "del-self", "enable-other", "drain-self" };
 static const char *idname[] = { "A(pipe)", "B(sock)", "T(timer)", "P(process)" };
 
@@ -304,6 +304,10 @@ apply_step(const step_t *s) {
 			r->m_peer_closed = 1;
 		}
 		break;
+	case S_PEERSHUT: /* the peer finished sending: shutdown(SHUT_WR) / TCP FIN; it can still receive */
+		if (r->peer >= 0 && !r->m_peer_closed && 0 == shutdown(r->peer, SHUT_WR))
+			r->m_peer_closed = 1;
+		break;
 	case S_FIRE: /* the armed timer expires now */
 		if (!(r->m_reg && r->m_en) || rec_tfd_last < 0)
 			break;
@@ -493,6 +497,7 @@ enumerate(int depth, abs_t a) {
 			if (a.reg[id]) { PUSH(S_DRAIN, id, 0, 0); enumerate(depth + 1, a); }
 			b = a; b.closed[id] = 1;
 			PUSH(S_PEERCLOSE, id, 0, 0); enumerate(depth + 1, b);
+			if (ID_B == id) { PUSH(S_PEERSHUT, id, 0, 0); enumerate(depth + 1, b); }
 		}
 		if (ID_T == id && a.reg[id]) {
 			PUSH(S_FIRE, id, 0, 0); enumerate(depth + 1, a);
